@@ -38,6 +38,13 @@ def seed():
         return 1
 
 
+class DataRace(Exception):
+    """The race detector reported a data race in a -race run of the harness (out = the go test output)."""
+    def __init__(self, out):
+        Exception.__init__(self, "data race")
+        self.out = out
+
+
 class Infra(Exception):
     """Infrastructure failure: exit 2, never a verdict."""
 
@@ -265,6 +272,8 @@ def go_test(pkgs, pkgdir, run, env=None, timeout=1200, race=False, tmp=None, cov
         if re.search(r"^panic: vf:", o, re.M):           # the harness's own assertions all start with "vf:"
             sys.stderr.write(o[-3000:])
             raise Infra("the harness panicked (not the code under test) in %s -run %s" % (pkgdir, run))
+        if race and "WARNING: DATA RACE" in o and "[build failed]" not in o:
+            raise DataRace(o)
         if re.search(r"^(panic:|fatal error:)", o, re.M) and "[build failed]" not in o and "[setup failed]" not in o:
             raise ProductCrash(o)
         sys.stderr.write(o[-3000:])
